@@ -143,6 +143,7 @@ pub fn facts(files: &[(String, File)]) -> (String, String) {
   let mut provided_overrides: Vec<String> = vec![];
   let mut iterator_overrides: Vec<String> = vec![];
   // which operand pairs get their `PartialEq` from the delegating macro, and comparison impls that come from elsewhere
+  let mut iter_pub_fns: Vec<String> = vec![];
   let mut eq_macro_uses: Vec<String> = vec![];
   let mut other_eq_macros: Vec<String> = vec![];
   for (rel, f) in files {
@@ -281,6 +282,13 @@ pub fn facts(files: &[(String, File)]) -> (String, String) {
               let ctx = format!("{}::{}", rel, m.sig.ident);
               visit::Visit::visit_block(&mut V(&mut alloc_sites, ctx), &m.block);
 
+              if tr.is_none() && matches!(m.vis, Visibility::Public(_)) {
+                for itn in ["Drain", "Splice", "DrainFilter", "IntoIter"] {
+                  if self_ty.starts_with(&format!("{}<", itn)) {
+                    iter_pub_fns.push(format!("{}::{}", itn, m.sig.ident));
+                  }
+                }
+              }
               if self_ty.starts_with("MiniVec<") {
                 match &tr {
                   None => {
@@ -429,6 +437,9 @@ pub fn facts(files: &[(String, File)]) -> (String, String) {
   l.push_str(&format!("\n/-- provided methods of PartialEq / PartialOrd / Ord / Hash / Debug that an impl for `MiniVec` overrides -/\ndef providedOverrides : Nat := {}\n", provided_overrides.len()));
   l.push_str(&format!("\n/-- the operand pairs whose `PartialEq` comes from the delegating macro `minivec_eq_impl!` (sorted) -/\ndef eqMacroUses : List String := [{}]\n",
     eq_macro_uses.iter().map(|m| format!("\"{}\"", m.replace('\\', "\\\\").replace('"', "\\\""))).collect::<Vec<_>>().join(", ")));
+  iter_pub_fns.sort();
+  l.push_str(&format!("\n/-- the public inherent methods of the four iterator types (a new one could hand out a borrow with the iterator's own lifetime, or build an iterator whose lifetime is tied to nothing) -/\ndef iteratorPubFns : List String := [{}]\n",
+    iter_pub_fns.iter().map(|m| format!("\"{}\"", m)).collect::<Vec<_>>().join(", ")));
   l.push_str(&format!("\n/-- other macros defined or used in partial_eq.rs (each could generate comparison impls of another shape) -/\ndef otherEqMacros : Nat := {}\n", other_eq_macros.len()));
   l.push_str(&format!("\n/-- provided methods of Iterator / DoubleEndedIterator / ExactSizeIterator / Clone (other than `len`) that an impl for\n    MiniVec or one of its iterators overrides -/\ndef iteratorOverrides : Nat := {}\n", iterator_overrides.len()));
   l.push_str("\n/-- a call of the global allocator API and the function it occurs in -/\ninductive AllocSite | growAlloc | growRealloc | dropDealloc | otherSite\n  deriving DecidableEq, Repr\n\n");
